@@ -132,6 +132,15 @@ func evTimestamps(r *rand.Rand, n int, size, moo int64, pattern string) []int64 
 		switch pattern {
 		case "inorder":
 		case "boundary":
+			if r.Intn(5) == 0 && i+1 < n {
+				// the last millisecond of a window: one row makes the watermark rest exactly there
+				// (ts = end-1+MOO), then an on-time row with ts = end-1 follows (a duplicate when MOO = 0)
+				e := (t/size+1)*size - 1
+				ts = append(ts, e+moo, e)
+				t = e + moo
+				i++
+				continue
+			}
 			if r.Intn(3) == 0 {
 				v = (t / size) * size // exactly on a boundary
 				t = v
